@@ -1078,6 +1078,11 @@ class AsyncWriter(threading.Thread, IndexWriter):
     def delete_by_term(self, *args, **kwargs):
         self._record("delete_by_term", args, kwargs)
 
+    def delete_by_query(self, *args, **kwargs):
+        # (recorded as such: the documents are looked up when the call is
+        # replayed, not in the index as it is now)
+        self._record("delete_by_query", args, kwargs)
+
     def commit(self, *args, **kwargs):
         if self.writer:
             self.writer.commit(*args, **kwargs)
